@@ -719,9 +719,10 @@ def verify_unit(spec_path, canaries='none', rlimit=None, seed=None, keep=True, r
     cl = classify(unit, em, res)
     # obligations: every function Verus generated queries for inside this file (extracted fns, lemmas, witnesses)
     own = set(f['emitted'].split('::')[-1] for f in unit.functions)
+    AX = re.compile(r'^axiom_')
     for sct in unit.secs:
         if sct.kind == 'raw':
-            own |= set(re.findall(r'\bfn\s+(\w+)', sct.body))
+            own |= set(n for n in re.findall(r'\bfn\s+(\w+)', sct.body) if not AX.match(n))
     # prelude functions (vassert, facade methods, ...) and constants are not counted as obligations
     allf = {n: v for n, v in cl['all_functions'].items() if n.split('::')[-1] in own}
     obligations = len(allf)
